@@ -190,6 +190,18 @@ func universeRule(c *Ctx, rule string) {
 		okLo := isK && k == 0
 		hb, ho := lin(hi)
 		okHi := ho == 0 && srcField(hb) == rows
+		// an accessor method that returns the field
+		if !okHi && ho == 0 {
+			if _, callee, vals, ok := resultOrigins(c.w, hb); ok && callee.Signature.Recv() != nil && namedOf(callee.Signature.Recv().Type()) == c.a.IndexT {
+				all := len(vals) > 0
+				for _, rv := range vals {
+					if srcField(peelConv(rv)) != rows {
+						all = false
+					}
+				}
+				okHi = all
+			}
+		}
 		why := ""
 		if !okLo {
 			why = "the range does not start at row 0"
@@ -229,6 +241,22 @@ func universeRule(c *Ctx, rule string) {
 						return true
 					}
 					return false
+				}
+				// a local variable assigned (possibly inside the View callback) from the decoded item
+				if ld, ok := v.(*ssa.UnOp); ok && ld.Op == token.MUL && depth < 3 {
+					if vals, ok := cellValues(ld.X); ok && len(vals) > 0 {
+						n, good := 0, true
+						for _, sv := range vals {
+							if k, isK := constInt(sv); isK && k == 0 {
+								continue // zero initialisation
+							}
+							n++
+							if !okRowSrc(sv, depth+1) {
+								good = false
+							}
+						}
+						return n > 0 && good
+					}
 				}
 				// the result of a header-reading helper: every return that carries a nil error returns the decoded item
 				if depth < 2 {
@@ -436,6 +464,61 @@ func opmapRule(c *Ctx, rule string) {
 				comb = append(comb, call)
 			}
 		})
+		if len(comb) == 0 {
+			// the evaluation is shared with the sibling operator: a helper receives the operand list and the combining function
+			done := false
+			allInstrs(fn, func(i ssa.Instruction) {
+				call, ok := i.(*ssa.Call)
+				if !ok || done {
+					return
+				}
+				h := calleeFunc(&call.Call)
+				if h == nil || !c.w.inModule(h) || h.Blocks == nil {
+					return
+				}
+				var pComb, pExprs ssa.Value
+				combName := ""
+				for k, a := range call.Call.Args {
+					if k >= len(h.Params) {
+						continue
+					}
+					av := a
+					if ct, ok := av.(*ssa.ChangeType); ok {
+						av = ct.X
+					}
+					if f, ok := av.(*ssa.Function); ok && f.Pkg != nil && f.Pkg.Pkg.Path() == roaringPkg {
+						pComb, combName = h.Params[k], funcFullName(f)
+					}
+					if path(a).lastField() == exprsF {
+						pExprs = h.Params[k]
+					}
+				}
+				if pComb == nil || pExprs == nil {
+					return
+				}
+				done = true
+				if !spec.allow[combName] {
+					c.r.bad(rule, name, "operands are combined with "+shortName(combName)+", which is not a "+spec.what, []string{c.w.ipos(call)})
+					return
+				}
+				// inside the helper: the combining parameter is called on the slice built from every operand's result
+				var dyn *ssa.Call
+				allInstrs(h, func(j ssa.Instruction) {
+					if dc, ok := j.(*ssa.Call); ok && dc.Call.Value == pComb {
+						dyn = dc
+					}
+				})
+				if dyn == nil {
+					c.r.bad(rule, name, "the helper that evaluates the operands never calls the combining function it is given", []string{c.w.ipos(call)})
+					return
+				}
+				okOps, why := elementLoop(c, h, dyn.Call.Args[len(dyn.Call.Args)-1], func(x ssa.Value) bool { return x == pExprs }, evalCallElem, 0)
+				c.r.check(okOps, rule, name, spec.what+" of the evaluation results of every operand (through "+safeFname(h)+")", why, c.w.ipos(call))
+			})
+			if done {
+				continue
+			}
+		}
 		if len(comb) != 1 {
 			c.r.undecided(rule, name, fmt.Sprintf("expected one roaring combining call, found %d", len(comb)), c.w.pos(fn.Pos()))
 			continue
